@@ -476,7 +476,13 @@ class Executor:
             if items is None:
                 spec = self.loop_specs.get(node.lineno) or self.loop_specs.get('for')
                 if spec is None and isinstance(it, SSeq):
-                    outs.append(self.map_append_loop(node, s2, it))
+                    try:
+                        outs.append(self.map_append_loop(node, s2.clone(), it))
+                    except Unsupported as e1:
+                        try:
+                            outs.append(self.pointwise_loop(node, s2, it))
+                        except Unsupported as e2:
+                            raise Unsupported(f'{e1}; as a pointwise loop: {e2}')
                     continue
                 if spec is None:
                     raise Unsupported(f'for over symbolic iterable at line {node.lineno} '
@@ -616,6 +622,153 @@ class Executor:
         st_snapshot = st.clone()
         for name in appends:
             st_snapshot.env[name] = nprefix[name]
+        return (st, ('fall', None))
+
+    def pointwise_loop(self, node, st, it):
+        """`for k, x in enumerate(seq): ... A[k] op= e ... L.append(e)` with branches: every
+        iteration touches only slot k of the arrays it updates and appends once to each list, so
+        the loop is the pointwise map k -> (new A[k], appended values).
+
+        Conditions (else Unsupported): the iterable is enumerate(seq) with target (k, x); the body
+        consists of assignments to local names, `if` statements, `A[k] = e` / `A[k] op= e` for
+        array names A that occur in the body *only* in that form with exactly the counter k as
+        index (so distinct iterations touch distinct slots and never read another slot), and
+        `L.append(e)` for lists L that occur only so; locals are written before read in an
+        iteration; on every path of an iteration each list is appended to exactly once."""
+        if not getattr(it, 'enumerated', False) or not isinstance(node.target, ast.Tuple) \
+                or len(node.target.elts) != 2 or not isinstance(node.target.elts[0], ast.Name):
+            raise Unsupported('not a loop over enumerate(...) with a (counter, element) target')
+        kname = node.target.elts[0].id
+        arrays, lists, written = set(), set(), set()
+
+        def scan(stmts):
+            for stmt in stmts:
+                if isinstance(stmt, ast.If):
+                    scan(stmt.body)
+                    scan(stmt.orelse)
+                elif isinstance(stmt, ast.Pass):
+                    pass
+                elif isinstance(stmt, ast.Expr) and isinstance(stmt.value, ast.Call) \
+                        and isinstance(stmt.value.func, ast.Attribute) \
+                        and stmt.value.func.attr == 'append' \
+                        and isinstance(stmt.value.func.value, ast.Name) \
+                        and len(stmt.value.args) == 1:
+                    lists.add(stmt.value.func.value.id)
+                elif isinstance(stmt, (ast.Assign, ast.AugAssign)):
+                    tgts = stmt.targets if isinstance(stmt, ast.Assign) else [stmt.target]
+                    for t in tgts:
+                        if isinstance(t, ast.Name):
+                            written.add(t.id)
+                        elif isinstance(t, ast.Subscript) and isinstance(t.value, ast.Name) \
+                                and isinstance(t.slice, ast.Name) and t.slice.id == kname:
+                            arrays.add(t.value.id)
+                        elif isinstance(t, (ast.Tuple, ast.List)) and all(
+                                isinstance(e, ast.Name) for e in t.elts):
+                            written.update(e.id for e in t.elts)
+                        else:
+                            raise Unsupported('store target in a pointwise loop')
+                else:
+                    raise Unsupported(f'statement {type(stmt).__name__} in a pointwise loop')
+        scan(node.body)
+        for t in ast.walk(node.target):
+            if isinstance(t, ast.Name):
+                written.add(t.id)
+        if not arrays and not lists:
+            raise Unsupported('pointwise loop without an output')
+        # the arrays / lists occur nowhere else in the body
+        for nm in arrays | lists:
+            for x in ast.walk(ast.Module(body=node.body, type_ignores=[])):
+                if isinstance(x, ast.Name) and x.id == nm:
+                    ok = False
+                    for y in ast.walk(ast.Module(body=node.body, type_ignores=[])):
+                        if isinstance(y, ast.Subscript) and y.value is x and nm in arrays \
+                                and isinstance(y.slice, ast.Name) and y.slice.id == kname \
+                                and isinstance(y.ctx, ast.Store):
+                            ok = True
+                        if isinstance(y, ast.Attribute) and y.value is x and nm in lists \
+                                and y.attr == 'append':
+                            ok = True
+                    if not ok:
+                        raise Unsupported(f'{nm} is used in the loop body other than as its '
+                                          'own output slot')
+            if nm in written:
+                raise Unsupported(f'{nm} rebound inside the loop body')
+        for nm in arrays:
+            v = st.env.get(nm)
+            if not isinstance(v, SArr) or v.ndim != 1:
+                raise Unsupported(f'{nm} is not a 1-D array before the loop')
+            if v.store is None:
+                self.own_store(nm, st)
+        for nm in lists:
+            if not isinstance(st.env.get(nm), list) or st.env[nm]:
+                raise Unsupported(f'{nm} is not an empty list before the loop')
+        n = num_term(it.length)
+        base = st.clone()
+        for w in written:
+            base.env.pop(w, None)
+
+        def iteration(k):
+            """All paths of iteration k from the pre-loop state: [(condition, {array: slot value},
+            {list: appended value}, state)]."""
+            s2 = base.clone()
+            self.assign(node.target, it.fn(k), s2)
+            for nm in lists:
+                s2.env[nm] = []
+            npc = len(s2.pc)
+            paths = self.exec_block(node.body, s2)
+            out = []
+            for ps, oc in paths:
+                if oc[0] != 'fall':
+                    raise Unsupported('loop body leaves the loop')
+                cond = z3.And(*ps.pc[npc:]) if len(ps.pc) > npc else z3.BoolVal(True)
+                avals = {nm: ps.env[nm].fn((k,)) for nm in arrays}
+                lvals = {}
+                for nm in lists:
+                    if len(ps.env[nm]) != 1:
+                        raise Unsupported(f'{nm} is not appended to exactly once on every path')
+                    lvals[nm] = ps.env[nm][0]
+                out.append((cond, avals, lvals, ps))
+            return out
+
+        def merged(k, kind, nm):
+            paths = iteration(k)
+            sink = SINK[-1] if SINK else None
+            val = None
+            for cond, avals, lvals, ps in reversed(paths):
+                v = (avals if kind == 'a' else lvals)[nm]
+                if not is_num(v):
+                    if len(paths) == 1:
+                        return v
+                    raise Unsupported('non-scalar value merged over the branches of a loop body')
+                val = v if val is None else self.ite(cond, v, val)
+                if sink is not None:
+                    for lab, hyps, f in ps.checks[len(base.checks):]:
+                        sink.lazy_checks.append((lab, list(hyps) + list(sink.guard_stack), f))
+            return val
+
+        # trial iteration: structure and in-body obligations at a fresh index
+        k0 = fresh('it', 'int')
+        tb = base
+        base = base.clone()
+        base.assume(z3.And(k0 >= 0, k0 < n))
+        for cond, avals, lvals, ps in iteration(k0):
+            for lab, hyps, f in ps.checks[len(base.checks):]:
+                st.checks.append((lab, hyps, f))
+        base = tb
+        for nm in arrays:
+            arr = st.env[nm]
+            store = arr.store
+            if getattr(store, 'frozen', False):
+                raise Unsupported('pointwise update of an element of a sequence of arrays')
+            st.check(f'{nm} has a slot for every iteration', num_term(arr.shape[0]) >= n)
+            old = store.fn
+            store.fn = (lambda p, old=old, nm=nm:
+                        self.ite(z3.And(num_term(p[0]) >= 0, num_term(p[0]) < n),
+                                 merged(num_term(p[0]), 'a', nm), old(p)))
+        for nm in lists:
+            st.env[nm] = SSeq(z3.simplify(n), (lambda i, nm=nm: merged(num_term(i), 'l', nm)), 'obj')
+        for w in written:
+            st.env.pop(w, None)
         return (st, ('fall', None))
 
     def st_While(self, node, st):
@@ -1264,6 +1417,11 @@ class Executor:
             return v[concrete(k)]
         if isinstance(v, SObj) and v.cls == '__dict__':
             return v.fields[concrete(k)]
+        if isinstance(v, SObj) and isinstance(k, str):
+            # a table row / mapping-like record read by column name
+            if k not in v.fields:
+                raise Unsupported(f'record {v.cls} has no column {k!r}')
+            return v.fields[k]
         if isinstance(v, SSeq):
             if isinstance(k, SSlice):
                 return self.slice_seq(v, k, st)
